@@ -21,7 +21,7 @@ ASSUMPTIONS = ['cut enumerator and SAT solver are the shims (a valid family of c
 
 def sources(tier, seed, ctx):
     rng = random.Random(seed + 4)
-    n = 420 if tier == 'quick' else 5000
+    n = 640 if tier == 'quick' else 5000
     srcs = []
     for j in range(n):
         big = j % 4 == 0            # larger circuits with reconvergent fan-out (correlated cut leaves), default-like parameters
@@ -56,6 +56,7 @@ def record(src):
     case = {'kind': 'minimize', 'orig': obs['orig'], 'exc': obs['exc'], 'where': obs.get('where', ''), 'stmt': obs.get('stmt', ''),
             'chain': obs.get('chain', []), 'validation': src['validation'], 'src': src}
     case['cuts'] = obs.get('cuts', {})
+    case['cones'] = obs.get('cones', [])
     case['res'] = obs.get('res', obs['orig'])
     case['has_res'] = bool(obs.get('has_res')) or not obs['exc']
     return case
